@@ -24,10 +24,17 @@ TOPICS = ['main', 'aux', '_h']
 
 # ---------------------------------------------------------------------------------------------- process functions (mirror of Driver/Net.lean `behProc`)
 
+def key_of(h):
+    """key of a handed set for the content-keyed behaviours `cskip` / `cdnone` (mirror of Driver/Net.lean `keyOf`): for a source with one visible topic
+    the source frame number mod 8"""
+    return (sum(c for _, c in h) // 10) % 8
+
+
 def mk_proc(beh, i):
     from openfilter.filter_runtime.frame import Frame
     kind = beh['kind']
     skip, empty, dnone = set(beh.get('skip', ())), set(beh.get('empty', ())), set(beh.get('dnone', ()))
+    cskip, cdnone = set(beh.get('cskip', ())), set(beh.get('cdnone', ()))     # content-keyed None / callable -> None (key_of: independent of the call counter)
 
     def proc(frames, n, gen):
         h = [(t, f.data['c']) for t, f in frames.items()]
@@ -36,7 +43,8 @@ def mk_proc(beh, i):
             for tag in f.data.get('o', []):
                 if tag not in o: o.append(tag)
         F = lambda c: Frame({'c': c, 'o': o})
-        if n in skip: plain = None
+        key = key_of(h)
+        if n in skip or key in cskip: plain = None
         elif n in empty: plain = {}
         elif kind == 'src':
             tags = [[i, gen, n]]
@@ -49,7 +57,7 @@ def mk_proc(beh, i):
         elif kind == 'lone': plain = F(h[0][1]) if h else {}
         elif kind == 'sum': plain = {beh['name']: F(sum(c for _, c in h) + 1)}
         else: plain = None
-        if n in dnone: return lambda: None
+        if n in dnone or key in cdnone: return lambda: None
         if beh.get('defer'): return lambda: plain
         return plain
     return proc
@@ -589,8 +597,11 @@ def tree_oracle(trial, obs, handed):
 # ---------------------------------------------------------------------------------------------- tee-rejoin: source -> b branches -> join (C03 stage C, rejoins)
 
 def gen_rejoin_trial(rng):
-    """source 0, branches 1..b (each subscribed to the source only, each publishing its OWN topic names, never returning None), join b+1 subscribed
-    to all branches, optional sink; no restarts (hypotheses of C03_net_rejoin_composition)"""
+    """source 0, branches 1..b (each subscribed to the source only, each publishing its OWN topic names), join b+1 subscribed to all branches, optional
+    sink; no restarts.  In about half of the trials no branch returns None (hypotheses of C03_net_rejoin_composition); in the other half the branches
+    SKIP (None / callable -> None), keyed on the CONTENT of the handed set (`cskip` / `cdnone`: hypothesis BranchCntFree of C03_net_rejoin_common_ids -
+    a skip keyed on the call counter would make the set of common frames depend on the schedule, because a fast-forwarded branch is not handed every
+    source frame), with schedules that let one branch fall behind (stall + clock jump: eviction at the source, fast-forward by the join's requests)"""
     b = rng.randint(2, 3)
     ups, behs = [[]], []
     sb = {'kind': 'src', 'topics': rng.choice([['main'], ['main'], ['main', '_h'], ['main', 'aux']])}
@@ -606,6 +617,12 @@ def gen_rejoin_trial(rng):
         if rng.random() < 0.25: bb['empty'] = sorted(rng.sample(range(8), rng.randint(1, 2)))           # {} is allowed: an empty contribution
         if rng.random() < 0.25: bb['defer'] = True
         behs.append(bb)
+    skipping = rng.random() < 0.5
+    if skipping:
+        for k in range(1, b + 1): behs[k].pop('empty', None)      # `empty` is keyed on the call counter: not for branches that may be fast-forwarded
+        for k in rng.sample(range(1, b + 1), rng.randint(1, b)):
+            if rng.random() < 0.8: behs[k]['cskip'] = sorted(rng.sample(range(8), rng.randint(1, 4)))
+            if rng.random() < 0.35 or 'cskip' not in behs[k]: behs[k]['cdnone'] = sorted(rng.sample(range(8), rng.randint(1, 2)))
     ups.append(list(range(1, b + 1)))
     jb = rng.choice([{'kind': 'pass'}, {'kind': 'sum', 'name': 'main'}, {'kind': 'pass', 'skip': [rng.randrange(5)]}])
     behs.append(jb)
@@ -613,14 +630,23 @@ def gen_rejoin_trial(rng):
         ups.append([b + 1]); behs.append({'kind': 'pass'})
     topo = {'family': 'teerejoin', 'ups': ups, 'behs': behs}
     L = len(ups)
-    style = rng.choice(['flow', 'flow', 'loose', 'chaos', 'late'])
+    style = rng.choice(['flow', 'flow', 'loose', 'chaos', 'late'] + (['stall', 'stall', 'stall'] if skipping else []))
     late = rng.randrange(1, b + 1)
+    nrounds = rng.randint(10, 24) + (10 if style == 'stall' else 0)
+    stall_from = rng.randint(4, 9); stall_len = rng.randint(3, 8)
     evs, t = [], 1000
-    for r_ in range(rng.randint(10, 24)):
+    for r_ in range(nrounds):
         t += rng.choice([100, 100, 100, 50, 1, 0, 6000])
         order = list(range(L)); rng.shuffle(order)
         if style == 'late' and r_ < 6: order = [i for i in order if i != late]
+        hold = None
+        if style == 'stall' and stall_from <= r_ < stall_from + stall_len:
+            if r_ <= stall_from + 1: hold = late                    # one branch stalls mid-run: it takes a frame and keeps it (no send) ...
+            else: order = [i for i in order if i != late]           # ... and is away: the source evicts it after the clock jump and runs ahead with the others
+            if r_ == stall_from + 2: t += 6000
         for i in order:
+            if i == hold:
+                evs.append({'k': 'recv', 'i': i}); continue
             if style == 'chaos':
                 for _ in range(rng.randint(0, 3)): evs.append({'k': 'recv', 'i': i} if rng.random() < 0.5 else {'k': 'send', 'i': i, 't': t})
             else:
@@ -632,7 +658,9 @@ def gen_rejoin_trial(rng):
 
 
 def rejoin_reference(topo, nsrc):
-    """sets handed to the join: for the k-th surviving source frame, the union over the branches (in the join's source order) of what the branch makes of it"""
+    """sets handed to the join (C03_net_rejoin_common_ids, `rejoinSpecSkip`): for every surviving source frame of which EVERY branch makes a dict - the
+    common frames - under the source's id, the union over the branches (in the join's source order) of what the branch makes of it; a frame some branch
+    drops (None / callable -> None) is in no set at all"""
     from openfilter.filter_runtime.frame import Frame
     procs = [mk_proc(b, i) for i, b in enumerate(topo['behs'])]
     def norm(r):
@@ -652,9 +680,9 @@ def rejoin_reference(topo, nsrc):
         cur = []
         for br in topo['ups'][J]:
             r = norm(procs[br](vis, n, 0))
-            if r is None: cur = None; break          # outside the hypotheses (a branch skips): no handed set can match
+            if r is None: cur = None; break          # a branch skips this frame: not a common frame
             cur += [[t, f.data['c']] for t, f in r.items() if not t.startswith('_')]
-        ref.append([k, cur])
+        if cur is not None: ref.append([k, cur])
     return J, ref
 
 
@@ -664,13 +692,57 @@ def rejoin_oracle(trial, obs, handed):
     got = [[ident, [[t, c] for t, c, _ in fr]] for idx, j, ident, fr in handed if j == J]
     if got != ref[:len(got)]:
         k = next((a for a, (x, y) in enumerate(zip(got, ref)) if x != y), min(len(got), len(ref)))
-        return [('net-rejoin-composition', f"join {J}: set #{k} handed to process() is {got[k] if k < len(got) else None}, every branch applied to source frame #{k} gives "
-                 f"{ref[k] if k < len(ref) else None} (handed so far {len(got)})")]
+        return [('net-rejoin-composition', f"join {J}: set #{k} handed to process() is {got[k] if k < len(got) else None}, the #{k}-th source frame that every branch "
+                 f"makes a dict of gives {ref[k] if k < len(ref) else None} (handed so far {len(got)}, common frames {len(ref)} of {nsrc} source frames)")]
     return []
 
 
+def rejoin_loss_controls(trial, obs, handed):
+    """negative controls of the rejoin oracle on a run of the REAL classes: the same observation with (a) one set of a common frame removed from what the
+    join was handed (a loss), (b) one branch's contribution of a handed set replaced by that of the next set (a mixed set), (c) a handed set repeated
+    (a duplicate).  Returns the oracle keys per control: each must be ['net-rejoin-composition']."""
+    J = next(i for i, u in enumerate(trial['topo']['ups']) if len(u) > 1)
+    at = [a for a, hd in enumerate(handed) if hd[1] == J]
+    out = {}
+    if len(at) >= 3:
+        lost = handed[:at[1]] + handed[at[1] + 1:]
+        out['loss'] = [k for k, _ in rejoin_oracle(trial, obs, lost)]
+        idx, j, ident, fr = handed[at[1]]
+        fr2 = handed[at[2]][3]
+        mixed = list(handed); mixed[at[1]] = (idx, j, ident, [fr[0]] + list(fr2[1:]) if len(fr) > 1 and len(fr2) > 1 else list(fr2))
+        out['mixed'] = [k for k, _ in rejoin_oracle(trial, obs, mixed)]
+        dup = handed[:at[1] + 1] + [handed[at[1]]] + handed[at[1] + 1:]
+        out['duplicate'] = [k for k, _ in rejoin_oracle(trial, obs, dup)]
+    return out
+
+
+def rejoin_ffwd_witness():
+    """a run in which the fast-forward path really fires (the schedule of `fSched` in OFProps/C03RejoinSkip.lean): branch 1 drops the source frames 2 .. 5
+    (content-keyed); after five lock-step rounds branch 2 takes frame 2 and stalls with it (it no longer sends), the clock jumps beyond the connection time-out,
+    the source evicts branch 2 and runs ahead with branch 1 alone; the join adopts id 6 from branch 1 and asks every branch for 5; branch 2, back again and still
+    holding frame 2, is fast-forwarded to 6 and its receiver discards the frames 3, 4, 5 unprocessed.  The join must be handed exactly the common ids
+    0, 1, 6, 7, ..., branch 2 the ids 0, 1, 2, 6, 7, ..."""
+    topo = {'family': 'teerejoin', 'ups': [[], [0], [0], [1, 2]],
+            'behs': [{'kind': 'src', 'topics': ['main']}, {'kind': 'rename', 'frm': 'main', 'to': 'b1', 'cskip': [2, 3, 4, 5]},
+                     {'kind': 'rename', 'frm': 'main', 'to': 'b2'}, {'kind': 'pass'}]}
+    evs, t = [], 1000
+    def rnd(nodes, t, nosend=()):
+        return [e for i in nodes for e in [{'k': 'recv', 'i': i}] + ([{'k': 'send', 'i': i, 't': t}] if i not in nosend else [])]
+    for _ in range(5):
+        t += 100; evs += rnd([0, 1, 2, 3], t)
+    for _ in range(2):
+        t += 100; evs += rnd([0, 1, 2, 3], t, nosend=(2,))      # branch 2 takes a frame and keeps it
+    t += 6000
+    for _ in range(8):
+        t += 100; evs += rnd([0, 1, 3], t)                      # the source evicts branch 2 and runs ahead
+    for _ in range(6):
+        t += 100; evs += rnd([0, 1, 2, 3], t)
+    return {'topo': topo, 'evs': evs}
+
+
 def rejoin_skip_witness():
-    """negative control: branch 1 returns None for its second set - the join is then handed the common ids 0, 2, 3, ... and the oracle must fire"""
+    """branch 1 returns None for its second set (keyed on its call counter; on this lock-step schedule every branch is handed every frame): the join is
+    handed the common ids 0, 2, 3, ... - a prefix of the common-ids reference, NOT of the all-frames reference of C03_net_rejoin_composition"""
     topo = {'family': 'teerejoin', 'ups': [[], [0], [0], [1, 2]],
             'behs': [{'kind': 'src', 'topics': ['main']}, {'kind': 'rename', 'frm': 'main', 'to': 'b1', 'skip': [1]}, {'kind': 'rename', 'frm': 'main', 'to': 'b2'}, {'kind': 'pass'}]}
     evs, t = [], 1000
@@ -679,3 +751,130 @@ def rejoin_skip_witness():
         for i in range(4): evs += [{'k': 'recv', 'i': i}, {'k': 'send', 'i': i, 't': t}]
     return {'topo': topo, 'evs': evs}
 
+
+# ---------------------------------------------------------------------------------------------- independent join: b sources -> join (C03 stage C, several frame counters)
+
+def gen_indep_join_trial(rng):
+    """sources 0..b-1 (no upstream, each with its OWN ZMQSender counter and its OWN topic names), join b subscribed to all of them, optional sink; no restarts.
+    Hypotheses of C03_net_indep_join_composition (no source returns None) in most trials; in the others a source skips / its callable returns None
+    (C03_net_indep_join_surviving: the join pairs the n-th SURVIVING frames, nothing is fast-forwarded)."""
+    b = rng.randint(2, 3)
+    ups, behs = [], []
+    lone = rng.randrange(b) if rng.random() < 0.2 else None
+    skipping = rng.random() < 0.3
+    for k in range(b):
+        ups.append([])
+        topics = [f's{k}'] + ([f's{k}x'] if rng.random() < 0.3 else []) + ([f'_h{k}'] if rng.random() < 0.3 else [])
+        if rng.random() < 0.1: topics = [f'_only{k}']                                    # a source whose every frame is invisible to the join: an empty contribution
+        rng.shuffle(topics)
+        sb = {'kind': 'src', 'topics': topics}
+        if k == lone: sb['lone'] = True                                                     # a lone Frame arrives as topic 'main' (nobody else uses that name)
+        if rng.random() < 0.3: sb['empty'] = sorted(rng.sample(range(8), rng.randint(1, 2)))   # {} now and then
+        if rng.random() < 0.3: sb['defer'] = True                                           # every result a callable
+        if skipping and rng.random() < 0.6:
+            if rng.random() < 0.6: sb['skip'] = sorted(rng.sample(range(8), rng.randint(1, 2)))
+            else: sb['dnone'] = sorted(rng.sample(range(8), rng.randint(1, 2)))
+        behs.append(sb)
+    ups.append(list(range(b)))
+    behs.append(rng.choice([{'kind': 'pass'}, {'kind': 'sum', 'name': 'main'}, {'kind': 'pass', 'skip': [rng.randrange(5)]}, {'kind': 'add', 'name': 'xj'},
+                            {'kind': 'pass', 'defer': True}]))
+    if rng.random() < 0.5:
+        ups.append([b]); behs.append({'kind': 'pass'})
+    topo = {'family': 'indepjoin', 'ups': ups, 'behs': behs}
+    L = len(ups)
+    style = rng.choice(['flow', 'flow', 'loose', 'chaos', 'late', 'fast'])
+    odd = rng.randrange(b)              # the source that is late / three times as fast as the others
+    evs, t = [], 1000
+    for r_ in range(rng.randint(10, 24)):
+        t += rng.choice([100, 100, 100, 50, 1, 0, 6000])
+        order = list(range(L)); rng.shuffle(order)
+        if style == 'late' and r_ < 6: order = [i for i in order if i != odd]
+        if style == 'fast':
+            order = order + [odd, b, odd]; rng.shuffle(order)
+        for i in order:
+            if style == 'chaos':
+                for _ in range(rng.randint(0, 3)): evs.append({'k': 'recv', 'i': i} if rng.random() < 0.5 else {'k': 'send', 'i': i, 't': t})
+            else:
+                p = 0.95 if style != 'loose' else 0.7
+                if rng.random() < p: evs.append({'k': 'recv', 'i': i})
+                if rng.random() < 0.1: evs.append({'k': 'recv', 'i': i})
+                if rng.random() < p: evs.append({'k': 'send', 'i': i, 't': t})
+    return {'topo': add_metrics_outputs(rng, topo), 'evs': evs}
+
+
+def indep_join_reference(topo, counts, strict=False):
+    """-> (J, sets handed to the join, sets handed to the sink below it or None).
+    Set n (id n) = source after source (the join's source order) the visible topics of that source's n-th SURVIVING frame, `counts[i]` = process() calls of
+    source i so far.  strict: frame n of EVERY source (a source that returned None for its frame n has no contribution: no handed set can match)."""
+    from openfilter.filter_runtime.frame import Frame
+    procs = [mk_proc(b, i) for i, b in enumerate(topo['behs'])]
+    def norm(r):
+        if callable(r): r = r()
+        if r is None: return None
+        if isinstance(r, Frame): return {'main': r}
+        return r
+    J = next(i for i, u in enumerate(topo['ups']) if len(u) > 1)
+    srcs = topo['ups'][J]
+    outs = {}
+    for s in srcs:
+        o = []
+        for n in range(counts.get(s, 0)):
+            r = norm(procs[s]({}, n, 0))
+            if r is None:
+                if strict: o.append(None)
+                continue
+            o.append(r)
+        outs[s] = o
+    ref = []
+    for n in range(min(len(outs[s]) for s in srcs)):
+        cur = []
+        for s in srcs:
+            if outs[s][n] is None: cur = None; break
+            cur += [[t, f] for t, f in outs[s][n].items() if not t.startswith('_')]
+        ref.append([n, cur])
+    sink = None
+    sk = next((i for i, u in enumerate(topo['ups']) if u == [J]), None)
+    if sk is not None and not strict:
+        sink = []
+        for n, (k, cur) in enumerate(ref):
+            r = norm(procs[J]({t: f for t, f in cur}, n, 0))
+            if r is not None: sink.append([k, [[t, f.data['c']] for t, f in r.items() if not t.startswith('_')]])
+    ref = [[k, None if cur is None else [[t, f.data['c']] for t, f in cur]] for k, cur in ref]
+    return J, ref, sink
+
+
+def indep_join_oracle(trial, obs, handed, strict=False):
+    """'net-join-composition': what the join's process() was handed so far is not a prefix of `frame n of every source with frame n of every other source`
+    (general form: the n-th surviving frames); the sink below the join: not a prefix of the join's process function applied to those sets"""
+    topo = trial['topo']
+    counts = {}
+    for idx, i, ident, fr in handed:
+        if not topo['ups'][i]: counts[i] = counts.get(i, 0) + 1
+    J, ref, sink = indep_join_reference(topo, counts, strict)
+    got = [[ident, [[t, c] for t, c, _ in fr]] for idx, j, ident, fr in handed if j == J]
+    if got != ref[:len(got)]:
+        k = next((a for a, (x, y) in enumerate(zip(got, ref)) if x != y), min(len(got), len(ref)))
+        return [('net-join-composition', f"join {J}: set #{k} handed to process() is {got[k] if k < len(got) else None}, frame #{k} of every source "
+                 f"({'literal' if strict else 'surviving'} frames) gives {ref[k] if k < len(ref) else None} (handed so far {len(got)}, source process() calls {counts})")]
+    if sink is not None:
+        sk = next(i for i, u in enumerate(topo['ups']) if u == [J])
+        gs = [[ident, [[t, c] for t, c, _ in fr]] for idx, j, ident, fr in handed if j == sk]
+        # the join may have been handed fewer sets than the sources allow: compare with what it makes of the sets it WAS handed and of those still to come
+        if gs != sink[:len(gs)]:
+            k = next((a for a, (x, y) in enumerate(zip(gs, sink)) if x != y), min(len(gs), len(sink)))
+            return [('net-join-composition', f"sink {sk} below join {J}: set #{k} handed to process() is {gs[k] if k < len(gs) else None}, the join's process function "
+                     f"applied to frame #{k} of every source gives {sink[k] if k < len(sink) else None}")]
+    return []
+
+
+def indep_join_skip_witness():
+    """negative control (hypothesis NoSkipSrc; Lean witness C03_net_indep_join_needs_noskip): source 0 returns None for its second frame - the join is handed
+    source 0's frames 0, 2, 3 with source 1's frames 0, 1, 2 under the ids 0, 1, 2 (a None never reaches the ZMQSender: no id is consumed, nobody is
+    fast-forwarded): the strict oracle (frame n with frame n) must fire, the surviving-frames oracle must not"""
+    topo = {'family': 'indepjoin', 'ups': [[], [], [0, 1]],
+            'behs': [{'kind': 'src', 'topics': ['a'], 'skip': [1]}, {'kind': 'src', 'topics': ['b']}, {'kind': 'pass'}]}
+    evs, t = [], 1000
+    for _ in range(16):
+        t += 100
+        for i in range(3): evs += [{'k': 'recv', 'i': i}, {'k': 'send', 'i': i, 't': t}]
+    return {'topo': topo, 'evs': evs}
